@@ -494,3 +494,14 @@ func (g *Gen) Program(profile string) string {
 	root.emit(&sb, "")
 	return sb.String()
 }
+
+// RootSequence returns a program whose whole board is a sequence diagram (1–8 actors, 0–30 messages).
+func (g *Gen) RootSequence() string {
+	g.n = 0
+	g.special = false
+	root := &node{}
+	g.sequence(root, 8, 30)
+	var sb strings.Builder
+	root.emit(&sb, "")
+	return sb.String()
+}
